@@ -16,15 +16,15 @@ the one put in (`dyn_frame`), and the object is not updated a second time.
 them: which sections/segments are made resident, which accessor calls are made with which indices,
 which bytes are read through returned pointers.  The text is not modelled.
 
-TODO(fam-c09): `symbol_section_accessor` (get_symbols_num / get_symbol(index)) and
-`dump::symbol_tables` are not modelled here yet (Model/Symbols.lean not merged): those reads are
-covered on the implementation side only (sanitizers), see families/c01.py.
+Symbols: `get_symbols_num` / `get_symbol(index)` of Model/Symbols.lean (the by-name / by-value
+lookups and the hash sections belong to C09 / C18 and are not part of C01's inspection interface).
 -/
 import ElfioVerif.Model.Load
 import ElfioVerif.Model.Validate
 import ElfioVerif.Model.Note
 import ElfioVerif.Model.Dynamic
 import ElfioVerif.Model.Modinfo
+import ElfioVerif.Model.Symbols
 namespace ElfioVerif
 open Gen
 namespace Inspect
@@ -72,6 +72,32 @@ def dynSetup (o : Obj) (i : Nat) : Option (Obj × DynAcc) :=
       -- (the linked section may be section `i` itself: it is settled already, so `s = b` then)
       some (o2, mkDyn o2 b (some s))
 
+/-- `symbol_section_accessor::get_string_table_index()` : `(Elf_Half)symbol_section->get_link()` -/
+def symStrIdx (b : SecBuf) : Nat := (b.link.setWidth 16).toNat
+
+/-- `symbol_section_accessor( elf, sections[i] )` with both sections made resident; the hash
+    section the constructor looks for is not used by `get_symbols_num` / `get_symbol(index)` -/
+def symSetup (o : Obj) (i : Nat) : Option (Obj × SymTab) :=
+  match secResident o i with
+  | none => none
+  | some (o1, b) =>
+    match secResident o1 (symStrIdx b) with
+    | none => some (o1, { cfg := ⟨o1.cls, o1.enc⟩, sym := b, str := none, hash := none })
+    | some (o2, s) => some (o2, { cfg := ⟨o2.cls, o2.enc⟩, sym := b, str := some s, hash := none })
+
+/-- result of `get_symbol(index, name, value, size, bind, type, section_index, other)` with the
+    out-parameters initialised to the empty string / zeros -/
+structure SymOut where
+  ret : Bool
+  name : Bytes
+  attrs : Attrs
+  deriving Repr
+
+def getSym (t : SymTab) (k : BitVec 64) : M SymOut :=
+  match t.getSymbol k [] {} with
+  | .error f => .error f
+  | .ok r => pure ⟨r.1, r.2.1, r.2.2⟩
+
 /-- the name `dump::modinfo` looks for -/
 def modinfoName : Bytes := [46, 109, 111, 100, 105, 110, 102, 111]
 
@@ -93,9 +119,10 @@ inductive Query
   | modinfo (i : Nat)                           -- modinfo_section_accessor(sections[i]): all attributes
   | modinfoGet (i : Nat) (k : BitVec 32)        -- … .get_attribute(k, field, value)
   | modinfoByName (i : Nat) (field : Bytes)     -- … .get_attribute(field, value)
+  | symNum (i : Nat)                            -- symbol_section_accessor(elf, sections[i]).get_symbols_num()
+  | sym (i : Nat) (k : BitVec 64)               -- … .get_symbol(k, name, value, size, bind, type, shndx, other)
   | validate
   | dump
-  -- TODO(fam-c09): symNum (i) / sym (i) (k)
   deriving Repr
 
 inductive Out
@@ -108,6 +135,7 @@ inductive Out
   | attrs (l : List Modinfo.Attr)
   | attr (a : Option Modinfo.Attr)
   | value (v : Option Bytes)
+  | sym (r : SymOut)
   | complaints (l : List Complaint)
   deriving Repr
 
@@ -205,6 +233,26 @@ def dumpDynSec (o : Obj) (i : Nat) : M Obj :=
           | .ok _ => pure o1
     else pure o
 
+/-- `dump::symbol_tables`, one section: every symbol -/
+def dumpSymSec (o : Obj) (i : Nat) : M Obj :=
+  match o.secs[i]? with
+  | none => pure o
+  | some b =>
+    if b.stype == BitVec.ofNat 32 SHT_SYMTAB || b.stype == BitVec.ofNat 32 SHT_DYNSYM then
+      match symSetup o i with
+      | none => pure o
+      | some (o1, t) =>
+        match t.symbolsNum with
+        | .error f => .error f
+        | .ok n =>
+          match forIdx (List.range n.toNat)
+              (fun _ k => match getSym t (BitVec.ofNat 64 k) with
+                | .error f => .error f
+                | .ok _ => pure ()) () with
+          | .error f => .error f
+          | .ok _ => pure o1
+    else pure o
+
 /-- number of bytes `dump::section_data` / `segment_data` print -/
 def maxDataEntries : Nat := 64
 
@@ -243,10 +291,10 @@ def bindM {α β : Type} (x : M α) (f : α → M β) : M β :=
   | .error e => .error e
   | .ok a => f a
 
-/-- The reads of `dump::header, section_headers, segment_headers` (getters only), `symbol_tables`
-    (TODO(fam-c09): not modelled), `notes`, `modinfo`, `dynamic_tags`, `section_datas`,
-    `segment_datas`, in this order. -/
+/-- The reads of `dump::header, section_headers, segment_headers` (getters only), `symbol_tables`,
+    `notes`, `modinfo`, `dynamic_tags`, `section_datas`, `segment_datas`, in this order. -/
 def dump (o : Obj) : M Obj :=
+  bindM (forIdx (List.range o.secs.length) dumpSymSec o) fun o =>
   bindM (forIdx (List.range o.secs.length) dumpNoteSec o) fun o =>
   bindM (forIdx (List.range (half o.segs.length)) dumpNoteSeg o) fun o =>
   bindM (dumpModinfo o) fun o =>
@@ -360,6 +408,20 @@ def inspect (o : Obj) : Query → M (Obj × Out)
       match Modinfo.parse b1 with
       | .error f => .error f
       | .ok c => pure (o1, .value (Modinfo.getByName c field))
+  | .symNum i =>
+    match symSetup o i with
+    | none => pure (o, .null)
+    | some (o1, t) =>
+      match t.symbolsNum with
+      | .error f => .error f
+      | .ok n => pure (o1, .num n.toNat)
+  | .sym i k =>
+    match symSetup o i with
+    | none => pure (o, .null)
+    | some (o1, t) =>
+      match getSym t k with
+      | .error f => .error f
+      | .ok r => pure (o1, .sym r)
   | .validate => pure (o, .complaints (ElfioVerif.validate o))
   | .dump =>
     match dump o with
